@@ -5,7 +5,7 @@
   Every `Buffer` object owns its allocation exclusively (no sharing, no reference count),
   therefore the model gives every object its memory *by value*:
 
-    * `own m`   – `buffer` points to the block made by `new char[m.length]`; `bufferStart`
+    * `own id m` – `buffer` points to block `id` made by `new char[m.length]`; `bufferStart`
                   and `bufferEnd` are the offsets `s`, `e` into that block
     * `att m`   – `buffer == 0`; `bufferStart`/`bufferEnd` are offsets into the *attached
                   range* (caller memory, `m` = its bytes).  The model has no way of
@@ -27,9 +27,12 @@
   `a.prepend((const byte*)a + off, len)`) that follow the same C++ text with
   the source pointer pointing into the object's own memory.
 
-  Not modelled: `delete[]` bookkeeping (the block simply disappears with the value; a
-  double free / use of a stale `buffer` pointer cannot be expressed except in `assignSelf`,
-  and is left to ASan in the harness) and allocation failure.
+  Allocation ledger: every `new char[n]` takes a fresh block id from the `Ledger` and adds it
+  to the set of live blocks, every `delete[]` removes the id (a `delete[]` of a block that is
+  not live = double free = fault), and every load/store through an owned pointer checks that
+  the block is still live (use of a freed block = fault).  All methods run in the monad
+  `M α = Ledger → Option (α × Ledger)`; `new`, `delete[]` and the accesses appear in the order
+  of the C++ text.  Not modelled: allocation failure.
 -/
 namespace Nstd.Buffer
 
@@ -44,28 +47,74 @@ def rdList (m : List Byte) (off n : Nat) : Option (List Byte) :=
 def wrList (m : List Byte) (off : Nat) (d : List Byte) : Option (List Byte) :=
   if off + d.length ≤ m.length then some (m.take off ++ d ++ m.drop (off + d.length)) else none
 
-/-- `new char[n]` -/
+/-- content of `new char[n]` -/
 def fresh (n : Nat) : List Byte := List.replicate n none
 
+/-! ### allocation ledger -/
+
+/-- ids handed out so far are `< next`; `live` = blocks allocated and not yet deleted -/
+structure Ledger where
+  next : Nat
+  live : List Nat
+  deriving Repr, Inhabited
+
+/-- computations over the ledger that may fault -/
+def M (α : Type) : Type := Ledger → Option (α × Ledger)
+
+instance : Monad M where
+  pure a := fun L => some (a, L)
+  bind x f := fun L =>
+    match x L with
+    | some (a, L') => f a L'
+    | none => none
+
+/-- a ledger-independent checked operation -/
+def liftO {α : Type} (o : Option α) : M α := fun L => o.map (fun a => (a, L))
+
+def fault {α : Type} : M α := fun _ => none
+
+/-- `new char[...]`: a fresh block id -/
+def allocId : M Nat := fun L => some (L.next, { next := L.next + 1, live := L.next :: L.live })
+
+/-- an access through a pointer into block `id`: the block must be live -/
+def checkLive (id : Nat) : M Unit := fun L => if id ∈ L.live then some ((), L) else none
+
+/-- `delete[]` of block `id`: it must be live (otherwise double free) -/
+def deleteId (id : Nat) : M Unit := fun L =>
+  if id ∈ L.live then some ((), { L with live := L.live.filter (fun i => i != id) }) else none
+
 inductive Store where
-  | own (m : List Byte)
+  | own (id : Nat) (m : List Byte)
   | att (m : List Byte)
   | dflt (cell : Nat)
   deriving Repr, Inhabited
 
 /-- load `n` bytes at offset `off` of the block `bufferStart` points into -/
-def Store.load : Store → Nat → Nat → Option (List Byte)
-  | .own m, off, n => rdList m off n
-  | .att m, off, n => rdList m off n
-  | .dflt _, _, n => if n = 0 then some [] else none   -- the capacity field is never read as data
+def Store.load : Store → Nat → Nat → M (List Byte)
+  | .own id m, off, n => do checkLive id; liftO (rdList m off n)
+  | .att m, off, n => liftO (rdList m off n)
+  | .dflt _, _, n => if n = 0 then pure [] else fault   -- the capacity field is never read as data
 
 /-- store `d` at offset `off` of the block `bufferStart` points into -/
-def Store.write : Store → Nat → List Byte → Option Store
-  | .own m, off, d => (wrList m off d).map .own
+def Store.write : Store → Nat → List Byte → M Store
+  | .own id m, off, d => do
+    checkLive id
+    let m' ← liftO (wrList m off d)
+    pure (.own id m')
   -- attached memory is never modified (a zero-length `memcpy` touches nothing)
-  | .att m, off, d => if d.length = 0 ∧ off ≤ m.length then some (.att m) else none
+  | .att m, off, d => if d.length = 0 ∧ off ≤ m.length then pure (.att m) else fault
   -- the capacity field is never written through a data pointer
-  | .dflt c, _, d => if d.length = 0 then some (.dflt c) else none
+  | .dflt c, _, d => if d.length = 0 then pure (.dflt c) else fault
+
+/-- `delete[] (char*)buffer` (a null pointer is fine) -/
+def Store.release : Store → M Unit
+  | .own id _ => deleteId id
+  | _ => pure ()
+
+/-- `(byte*)new char[n]` -/
+def newBlock (n : Nat) : M Store := do
+  let id ← allocId
+  pure (.own id (fresh n))
 
 /-- one `Buffer` object: `buffer`/block, `bufferStart = block + s`, `bufferEnd = block + e`, `_capacity` -/
 structure Buf where
@@ -78,8 +127,14 @@ structure Buf where
 /-- `buffer != 0` -/
 def Buf.owning (b : Buf) : Bool :=
   match b.store with
-  | .own _ => true
+  | .own _ _ => true
   | _ => false
+
+/-- the id of the block `buffer` points to -/
+def Buf.ownId (b : Buf) : Option Nat :=
+  match b.store with
+  | .own id _ => some id
+  | _ => none
 
 /-- `Memory::copy` = `memcpy`: source and destination ranges in the same block must not overlap -/
 def noOverlap (dst src n : Nat) : Bool :=
@@ -88,77 +143,83 @@ def noOverlap (dst src n : Nat) : Bool :=
 /-- `p - n` on a pointer at offset `p` (leaving the block downwards is a fault) -/
 def ptrSub (p n : Nat) : Option Nat := if n ≤ p then some (p - n) else none
 
-/-! ### constructors -/
+/-! ### constructors / destructor -/
 
 /-- `Buffer()` of variable `self` -/
 def Buf.default (self : Nat) : Buf := { store := .dflt self, s := 0, e := 0, cap := 0 }
 
+/-- `~Buffer()` -/
+def Buf.destroy (b : Buf) : M Unit := b.store.release
+
 /-- `Buffer(usize capacity)` -/
-def Buf.ctorCap (capacity : Nat) : Option Buf := do
-  let m ← wrList (fresh (capacity + 1)) 0 [some 0]
-  pure { store := .own m, s := 0, e := 0, cap := capacity }
+def Buf.ctorCap (capacity : Nat) : M Buf := do
+  let st ← newBlock (capacity + 1)
+  let st ← st.write 0 [some 0]
+  pure { store := st, s := 0, e := 0, cap := capacity }
 
 /-- `Buffer(const byte* data, usize size)`; also `Buffer(const Buffer& other)` with the
     bytes `[other.bufferStart, other.bufferEnd)` already loaded -/
-def Buf.ctorData (data : List Byte) : Option Buf := do
+def Buf.ctorData (data : List Byte) : M Buf := do
   let size := data.length
-  let m ← wrList (fresh (size + 1)) 0 data
-  let m ← wrList m size [some 0]
-  pure { store := .own m, s := 0, e := size, cap := size }
+  let st ← newBlock (size + 1)
+  let st ← st.write 0 data
+  let st ← st.write size [some 0]
+  pure { store := st, s := 0, e := size, cap := size }
 
 /-- the exposed bytes `[bufferStart, bufferEnd)` (a checked load) -/
-def Buf.contents (b : Buf) : Option (List Byte) := b.store.load b.s (b.e - b.s)
+def Buf.contents (b : Buf) : M (List Byte) := b.store.load b.s (b.e - b.s)
 
 /-! ### methods -/
 
 /-- `attach(data, length)`; `range` = the bytes of the attached range -/
-def Buf.attach (range : List Byte) : Buf :=
-  { store := .att range, s := 0, e := range.length, cap := 0 }
+def Buf.attach (b : Buf) (range : List Byte) : M Buf := do
+  b.store.release
+  pure { store := .att range, s := 0, e := range.length, cap := 0 }
 
 /-- `operator=(const Buffer& other)` for `&other != this` and `assign(const byte* data, usize size)`
     (the two bodies differ only in `Memory::move` vs `Memory::copy`, which agree for
     a source outside the block) -/
-def Buf.assign (b : Buf) (data : List Byte) : Option Buf :=
+def Buf.assign (b : Buf) (data : List Byte) : M Buf :=
   let size := data.length
   if size > b.cap then do
-    -- delete[] buffer; _capacity = size; buffer = new char[size + 1]
-    let m ← wrList (fresh (size + 1)) 0 data
-    let m ← wrList m size [some 0]
-    pure { store := .own m, s := 0, e := size, cap := size }
+    b.store.release
+    let st ← newBlock (size + 1)
+    let st ← st.write 0 data
+    let st ← st.write size [some 0]
+    pure { store := st, s := 0, e := size, cap := size }
   else
     match b.store with
-    | .own m => do
-      let m ← wrList m 0 data
-      let m ← wrList m size [some 0]
-      pure { b with store := .own m, s := 0, e := size }
+    | .own _ _ => do
+      let st ← b.store.write 0 data
+      let st ← st.write size [some 0]
+      pure { b with store := st, s := 0, e := size }
     | _ =>
       -- `else if(!buffer) { bufferEnd = bufferStart; return; }`
       pure { b with e := b.s }
 
 /-- `a = a` -/
-def Buf.assignSelf (b : Buf) : Option Buf :=
+def Buf.assignSelf (b : Buf) : M Buf :=
   let size := b.e - b.s
-  if size > b.cap then
-    match b.store with
-    | .own _ => none                 -- `delete[] buffer`, then `Memory::move` reads the freed block
-    | st => do                       -- `buffer == 0`: the source is attached memory
-      let d ← st.load b.s size
-      let m ← wrList (fresh (size + 1)) 0 d
-      let m ← wrList m size [some 0]
-      pure { store := .own m, s := 0, e := size, cap := size }
+  if size > b.cap then do
+    b.store.release
+    let st ← newBlock (size + 1)
+    let d ← b.store.load b.s size     -- `other.bufferStart` still points into the old block
+    let st ← st.write 0 d
+    let st ← st.write size [some 0]
+    pure { store := st, s := 0, e := size, cap := size }
   else
     match b.store with
-    | .own m => do
-      let d ← rdList m b.s size
-      let m ← wrList m 0 d            -- `Memory::move` (overlap allowed)
-      let m ← wrList m size [some 0]
-      pure { b with store := .own m, s := 0, e := size }
+    | .own _ _ => do
+      let d ← b.store.load b.s size
+      let st ← b.store.write 0 d       -- `Memory::move` (overlap allowed)
+      let st ← st.write size [some 0]
+      pure { b with store := st, s := 0, e := size }
     | _ => pure { b with e := b.s }
 
 /-- `prepend(const byte* data, usize size)` / `prepend(const Buffer& data)` with `data` outside
     the object's own block (so the test `data + size <= buffer || data > buffer + _capacity`
     of the second branch holds) -/
-def Buf.prepend (b : Buf) (data : List Byte) : Option Buf :=
+def Buf.prepend (b : Buf) (data : List Byte) : M Buf :=
   let size := data.length
   if b.owning = true ∧ size ≤ b.s then do
     -- room in front
@@ -176,21 +237,23 @@ def Buf.prepend (b : Buf) (data : List Byte) : Option Buf :=
       pure { b with store := st, s := 0, e := required }
     else do
       -- reallocate
-      let m ← wrList (fresh (required + 1)) 0 data
+      let st ← newBlock (required + 1)
+      let st ← st.write 0 data
       let old ← b.store.load b.s oldSize
-      let m ← wrList m size old
-      let m ← wrList m required [some 0]
-      pure { store := .own m, s := 0, e := required, cap := required }
+      let st ← st.write size old
+      b.store.release
+      let st ← st.write required [some 0]
+      pure { store := st, s := 0, e := required, cap := required }
 
 /-- `a.prepend(a)`: `data == bufferStart`, `size == bufferEnd - bufferStart` -/
-def Buf.prependSelf (b : Buf) : Option Buf :=
+def Buf.prependSelf (b : Buf) : M Buf :=
   let size := b.e - b.s
   if b.owning = true ∧ size ≤ b.s then do
     let d ← b.store.load b.s size
     if noOverlap (b.s - size) b.s size then do
       let st ← b.store.write (b.s - size) d
       pure { b with store := st, s := b.s - size }
-    else none
+    else fault
   else
     let oldSize := b.e - b.s
     let required := size + oldSize
@@ -203,19 +266,21 @@ def Buf.prependSelf (b : Buf) : Option Buf :=
         let st ← st.write 0 d
         let st ← st.write required [some 0]
         pure { b with store := st, s := 0, e := required }
-      else none
+      else fault
     else do
+      let st ← newBlock (required + 1)
       let d ← b.store.load b.s size
-      let m ← wrList (fresh (required + 1)) 0 d
+      let st ← st.write 0 d
       let old ← b.store.load b.s oldSize
-      let m ← wrList m size old
-      let m ← wrList m required [some 0]
-      pure { store := .own m, s := 0, e := required, cap := required }
+      let st ← st.write size old
+      b.store.release
+      let st ← st.write required [some 0]
+      pure { store := st, s := 0, e := required, cap := required }
 
 /-- `a.prepend((const byte*)a + off, len)` with `off + len ≤ a.size()`: the data is a sub-range of the
     object's own window (this is the case the test `data + size <= buffer || data > buffer + _capacity`
     of the second branch exists for) -/
-def Buf.prependSub (b : Buf) (off len : Nat) : Option Buf :=
+def Buf.prependSub (b : Buf) (off len : Nat) : M Buf :=
   let size := len
   let src := b.s + off                         -- `data` as an offset into the block
   if b.owning = true ∧ size ≤ b.s then do
@@ -223,7 +288,7 @@ def Buf.prependSub (b : Buf) (off len : Nat) : Option Buf :=
     if noOverlap (b.s - size) src size then do
       let st ← b.store.write (b.s - size) d
       pure { b with store := st, s := b.s - size }
-    else none
+    else fault
   else
     let oldSize := b.e - b.s
     let required := size + oldSize
@@ -235,110 +300,120 @@ def Buf.prependSub (b : Buf) (off len : Nat) : Option Buf :=
         let st ← st.write 0 d
         let st ← st.write required [some 0]
         pure { b with store := st, s := 0, e := required }
-      else none
+      else fault
     else do
+      let st ← newBlock (required + 1)
       let d ← b.store.load src size
-      let m ← wrList (fresh (required + 1)) 0 d
+      let st ← st.write 0 d
       let old ← b.store.load b.s oldSize
-      let m ← wrList m size old
-      let m ← wrList m required [some 0]
-      pure { store := .own m, s := 0, e := required, cap := required }
+      let st ← st.write size old
+      b.store.release
+      let st ← st.write required [some 0]
+      pure { store := st, s := 0, e := required, cap := required }
 
 /-- the op line `prependsub v off len` clamps the sub-range to the window (so that it is always a
     valid argument): `off' = min off size`, `len' = min len (size - off')` -/
-def Buf.prependSubClamped (b : Buf) (off len : Nat) : Option Buf :=
+def Buf.prependSubClamped (b : Buf) (off len : Nat) : M Buf :=
   let size := b.e - b.s
   let off' := if off < size then off else size
   let len' := if len < size - off' then len else size - off'
   b.prependSub off' len'
 
 /-- `resize(usize size)` -/
-def Buf.resize (b : Buf) (size : Nat) : Option Buf :=
+def Buf.resize (b : Buf) (size : Nat) : M Buf :=
   if size > b.cap then do
+    let st ← newBlock (size + 1)
     let oldSize := b.e - b.s
     let old ← b.store.load b.s (if oldSize < size then oldSize else size)
-    let m ← wrList (fresh (size + 1)) 0 old
-    let m ← wrList m size [some 0]
-    pure { store := .own m, s := 0, e := size, cap := size }
+    let st ← st.write 0 old
+    b.store.release
+    let st ← st.write size [some 0]
+    pure { store := st, s := 0, e := size, cap := size }
   else
     match b.store with
-    | .own m =>
+    | .own _ _ =>
       if b.s + size ≤ b.cap then do
-        let m ← wrList m (b.s + size) [some 0]
-        pure { b with store := .own m, e := b.s + size }
+        let st ← b.store.write (b.s + size) [some 0]
+        pure { b with store := st, e := b.s + size }
       else do
         -- compact to the front
-        let old ← rdList m b.s (b.e - b.s)
-        let m ← wrList m 0 old                   -- `Memory::move`
-        let m ← wrList m size [some 0]
-        pure { b with store := .own m, s := 0, e := size }
+        let old ← b.store.load b.s (b.e - b.s)
+        let st ← b.store.write 0 old             -- `Memory::move`
+        let st ← st.write size [some 0]
+        pure { b with store := st, s := 0, e := size }
     | _ =>
       -- `else if(!buffer) bufferEnd = bufferStart;`
       pure { b with e := b.s }
 
 /-- the final `if(buffer) *bufferEnd = 0;` of both `append`s and of `removeBack` -/
-def Buf.termIfOwning (b : Buf) : Option Buf :=
+def Buf.termIfOwning (b : Buf) : M Buf :=
   match b.store with
-  | .own m => do
-    let m ← wrList m b.e [some 0]
-    pure { b with store := .own m }
+  | .own _ _ => do
+    let st ← b.store.write b.e [some 0]
+    pure { b with store := st }
   | _ => pure b
 
 /-- `append(const byte* data, usize size)` / `append(const Buffer& data)` for `&data != this` -/
-def Buf.append (b : Buf) (data : List Byte) : Option Buf := do
+def Buf.append (b : Buf) (data : List Byte) : M Buf := do
   let size := data.length
   let b ← b.resize (b.e - b.s + size)
-  let dst ← ptrSub b.e size
+  let dst ← liftO (ptrSub b.e size)
   let st ← b.store.write dst data
   Buf.termIfOwning { b with store := st }
 
 /-- `a.append(a)`: size is taken before, `data.bufferStart` after the `resize` -/
-def Buf.appendSelf (b : Buf) : Option Buf := do
+def Buf.appendSelf (b : Buf) : M Buf := do
   let size := b.e - b.s
   let b ← b.resize (b.e - b.s + size)
-  let dst ← ptrSub b.e size
+  let dst ← liftO (ptrSub b.e size)
   let d ← b.store.load b.s size
   if noOverlap dst b.s size then do
     let st ← b.store.write dst d
     Buf.termIfOwning { b with store := st }
-  else none
+  else fault
 
 /-- `bufferStart = bufferEnd = buffer ? buffer : (byte*)&_capacity` -/
 def Buf.home (self : Nat) (b : Buf) : Buf :=
   match b.store with
-  | .own _ => { b with s := 0, e := 0 }
+  | .own _ _ => { b with s := 0, e := 0 }
   | _ => { b with store := .dflt self, s := 0, e := 0 }
 
-def Buf.removeFront (self : Nat) (b : Buf) (size : Nat) : Option Buf :=
+def Buf.removeFront (self : Nat) (b : Buf) (size : Nat) : M Buf :=
   if b.s + size ≥ b.e then
     Buf.termIfOwning (b.home self)
   else
     pure { b with s := b.s + size }
 
-def Buf.removeBack (self : Nat) (b : Buf) (size : Nat) : Option Buf :=
+def Buf.removeBack (self : Nat) (b : Buf) (size : Nat) : M Buf :=
   if b.s + size ≥ b.e then
     Buf.termIfOwning (b.home self)
   else do
-    let e ← ptrSub b.e size
+    let e ← liftO (ptrSub b.e size)
     Buf.termIfOwning { b with e := e }
 
-def Buf.reserve (b : Buf) (capacity : Nat) : Option Buf :=
+def Buf.reserve (b : Buf) (capacity : Nat) : M Buf :=
   if capacity ≤ b.cap then pure b
   else do
     let size := b.e - b.s
     let capacity := if capacity < size then size else capacity
-    let m := fresh (capacity + 1)
+    let st ← newBlock (capacity + 1)
     let old ← b.store.load b.s size
-    let m ← wrList m 0 old
-    let m ← wrList m size [some 0]
-    pure { store := .own m, s := 0, e := size, cap := capacity }
+    let st ← st.write 0 old
+    b.store.release
+    let st ← st.write size [some 0]
+    pure { store := st, s := 0, e := size, cap := capacity }
 
-def Buf.clear (b : Buf) : Option Buf :=
+def Buf.clear (b : Buf) : M Buf :=
   match b.store with
-  | .own m => do
-    let m ← wrList m 0 [some 0]
-    pure { b with store := .own m, s := 0, e := 0 }
+  | .own _ _ => do
+    let st ← b.store.write 0 [some 0]
+    pure { b with store := st, s := 0, e := 0 }
   | _ => pure { b with e := b.s }
+
+/-- `free()` of variable `self` -/
+def Buf.free (self : Nat) (b : Buf) : M Buf := do
+  b.store.release
+  pure (Buf.default self)
 
 /-- second half of `swap`: `if(bufferStart == (byte*)&other._capacity) bufferStart = bufferEnd = (byte*)&_capacity;` -/
 def Buf.rehome (owner other : Nat) (b : Buf) : Buf :=
@@ -346,29 +421,30 @@ def Buf.rehome (owner other : Nat) (b : Buf) : Buf :=
   | .dflt c => if c = other ∧ b.s = 0 then { b with store := .dflt owner, s := 0, e := 0 } else b
   | _ => b
 
-/-! ### program state: the Buffer variables and the attachable caller memory -/
+/-! ### program state: the Buffer variables, the attachable caller memory, the allocation ledger -/
 
 structure State where
   bufs : List Buf
   regs : List (List Byte)
+  led : Ledger
   deriving Repr, Inhabited
 
 def init (nvars : Nat) (regs : List (List Byte)) : State :=
-  { bufs := (List.range nvars).map Buf.default, regs := regs }
+  { bufs := (List.range nvars).map Buf.default, regs := regs, led := { next := 0, live := [] } }
 
 def State.getBuf (st : State) (v : Nat) : Option Buf := st.bufs[v]?
-def State.setBuf (st : State) (v : Nat) (b : Buf) : State := { st with bufs := st.bufs.set v b }
 
 /-- run a method on variable `v` -/
-def State.upd (st : State) (v : Nat) (f : Buf → Option Buf) : Option State := do
+def State.upd (st : State) (v : Nat) (f : Buf → M Buf) : Option State := do
   let b ← st.getBuf v
-  let b' ← f b
-  pure (st.setBuf v b')
+  let (b', led') ← f b st.led
+  pure { st with bufs := st.bufs.set v b', led := led' }
 
 /-- exposed bytes of variable `v` -/
 def contents (st : State) (v : Nat) : Option (List Byte) := do
   let b ← st.getBuf v
-  b.contents
+  let (c, _) ← b.contents st.led
+  pure c
 
 def equalBufs (st : State) (v w : Nat) : Option Bool := do
   let a ← contents st v
@@ -379,8 +455,8 @@ def equalBufs (st : State) (v w : Nat) : Option Bool := do
 def terminator (st : State) (v : Nat) : Option (Option Byte) := do
   let b ← st.getBuf v
   match b.store with
-  | .own m => do
-    let t ← rdList m b.e 1
+  | .own _ _ => do
+    let (t, _) ← b.store.load b.e 1 st.led
     pure (some (t.headD none))
   | _ => pure none
 
@@ -411,22 +487,22 @@ inductive Op where
 def bytesOf (d : List Nat) : List Byte := d.map some
 
 /-- a method of `v` taking the bytes of `w ≠ v` -/
-def State.updFrom (st : State) (v w : Nat) (f : Buf → List Byte → Option Buf) : Option State := do
+def State.updFrom (st : State) (v w : Nat) (f : Buf → List Byte → M Buf) : Option State := do
   let d ← contents st w
   st.upd v (fun b => f b d)
 
 def step (st : State) : Op → Option State
   -- the constructors re-create variable `v` in place: `v.~Buffer(); new (&v) Buffer(...)`
-  | .ctorDefault v => st.upd v (fun _ => some (Buf.default v))
-  | .ctorCap v n => st.upd v (fun _ => Buf.ctorCap n)
-  | .ctorData v d => st.upd v (fun _ => Buf.ctorData (bytesOf d))
+  | .ctorDefault v => st.upd v (fun b => do b.destroy; pure (Buf.default v))
+  | .ctorCap v n => st.upd v (fun b => do b.destroy; Buf.ctorCap n)
+  | .ctorData v d => st.upd v (fun b => do b.destroy; Buf.ctorData (bytesOf d))
   | .ctorCopy v w =>
     -- the harness skips `copy v v` (an object cannot be copy-constructed from itself)
-    if v = w then st.upd v some else st.updFrom v w (fun _ d => Buf.ctorData d)
+    if v = w then st.upd v pure else st.updFrom v w (fun b d => do b.destroy; Buf.ctorData d)
   | .attach v r off len => do
     let region ← st.regs[r]?
     let range ← rdList region off len
-    st.upd v (fun _ => some (Buf.attach range))
+    st.upd v (fun b => b.attach range)
   | .assignBuf v w => if v = w then st.upd v Buf.assignSelf else st.updFrom v w Buf.assign
   | .assignData v d => st.upd v (fun b => b.assign (bytesOf d))
   | .prependData v d => st.upd v (fun b => b.prepend (bytesOf d))
@@ -442,9 +518,9 @@ def step (st : State) : Op → Option State
   | .swap v w => do
     let a ← st.getBuf v
     let b ← st.getBuf w
-    let st := st.setBuf v (b.rehome v w)
-    pure (st.setBuf w (a.rehome w v))
-  | .free v => st.upd v (fun _ => some (Buf.default v))
+    let bufs := st.bufs.set v (b.rehome v w)
+    pure { st with bufs := bufs.set w (a.rehome w v) }
+  | .free v => st.upd v (Buf.free v)
 
 def run (st : State) : List Op → Option State
   | [] => some st
